@@ -14,6 +14,12 @@ def sequential(loop: dict) -> dict:
     k, n, x = loop["k"], loop["n"], loop["x0"]
     fam = loop["family"]
     iters = 0
+    if fam == "signal" and loop.get("separateEmitter") and not loop["defaultOpen"]:
+        # the emitter fires on the initial loop value, so a closed gate checks first: an ordinary while-loop
+        while x < n:
+            x += 1
+            iters += 1
+        return {"x": x, "iters": iters, "gate": iters + 1, "steps": (k + 2) * iters + 2}
     if fam == "signal":
         if not loop["defaultOpen"]:
             # gate waits for the body's signal and the body waits for the gate: nothing can start
@@ -23,7 +29,9 @@ def sequential(loop: dict) -> dict:
         while x < n:
             x += 1
             iters += 1
-        return {"x": x, "iters": iters, "gate": iters, "steps": (k + 1) * iters}
+        # a separate emitter node adds one step per iteration: the gate is deferred while its signal's producer is ready
+        per_iter = (k + 2) if loop.get("separateEmitter") else (k + 1)
+        return {"x": x, "iters": iters, "gate": iters, "steps": per_iter * iters}
     while x < n:
         x += 1
         iters += 1
@@ -47,7 +55,7 @@ class C04(RunProp):
             c = gen.gen_loop(rng, max_n=6 if tier == "quick" else rng.choice([6, 15, 40]))
             seq = sequential(c["loop"])
             cfgs = [{}]
-            if seq["steps"] > 0:
+            if seq["steps"] > 0 and not c["loop"].get("separateEmitter"):
                 cfgs.append({"maxIter": max(1, seq["steps"] + rng.choice([-2, -1, 0, 0, 1, 5])), "errMode": rng.choice(["raise", "continue"])})
             for cfg in cfgs:
                 for runner in ("sync", "async"):
@@ -76,7 +84,9 @@ class C04(RunProp):
                 got = counts.get(f"0:b{j+1}", 0)
                 if got != seq["iters"]:
                     return f"body node b{j+1} ran {got} times, the sequential loop iterates {seq['iters']} times"
-            if counts.get("0:gate", 0) != seq["gate"]:
+            ok_gate = {seq["gate"], seq["gate"] + 1} if (lp.get("separateEmitter") and lp["defaultOpen"]) else {seq["gate"]}
+            # (a separate emitter node also fires on the initial loop value, which may give the gate one extra early evaluation)
+            if counts.get("0:gate", 0) not in ok_gate:
                 return f"gate ran {counts.get('0:gate', 0)} times, expected {seq['gate']}"
             if lp["family"] == "exit":
                 if counts.get("0:done", 0) != 1 or vals.get("result") != {"t": ["done", seq["x"]]}:
